@@ -28,6 +28,8 @@ func checkC16(p *Prog, r *Report) {
 	rTab := r.Rule("tables-agree", "Go's substitutions and Perl's y/// are inverse tables over characters outside / inside the uu alphabet as required")
 	rCtx := r.Rule("quoting-context", "{{.PerlUU}} is single-quoted; every \"$@\" of the wrapper is double-quoted")
 	rText := r.Rule("text-preserved", "cleanPerl only blanks elements of the line slice; nothing truncates or filters the program text")
+	rFeed := r.Rule("source-to-filter", "what a filter reads is the file's own bytes: between opening the file and calling the filter only byte-preserving wrappers")
+	checkFilterFeed(p, r, rFeed)
 	rName := r.Rule("naming-and-buffers", "function name from the file's base name; output rendered into buffers of this call")
 
 	fp := p.Func(sffPkg, "", "FromPerl")
@@ -485,3 +487,95 @@ func checkCleanPerl(p *Prog, ru *Rule, cp *ssa.Function) {
 }
 
 var _ = types.Universe
+
+// checkFilterFeed: every reader handed to a Filter (a call through a value of
+// func(string, io.Reader) ([]byte, error)) or to a module function which
+// forwards its reader parameter to one is rooted in an opened/read file or the
+// caller's own reader parameter, through byte-preserving wrappers only.
+func checkFilterFeed(p *Prog, r *Report, ru *Rule) {
+	isFilterSig := func(sig *types.Signature) (int, bool) {
+		if nil == sig || 2 != sig.Results().Len() || !isErrorType(sig.Results().At(1).Type()) || "[]byte" != sig.Results().At(0).Type().String() {
+			return 0, false
+		}
+		for k := 0; k < sig.Params().Len(); k++ {
+			if typeIs(sig.Params().At(k).Type(), "io", "Reader") {
+				return k, true
+			}
+		}
+		return 0, false
+	}
+	preserving := func(n string) bool {
+		switch n {
+		case "bytes.NewReader", "bytes.NewBuffer", "bytes.NewBufferString", "strings.NewReader", "bufio.NewReader", "bufio.NewReaderSize", "io.ReadAll", "io.NopCloser", "bytes.Clone", "slices.Clone":
+			return true
+		}
+		return false
+	}
+	sources := func(n string) bool {
+		switch n {
+		case "os.Open", "os.OpenFile", "os.ReadFile", "io/fs.ReadFile", "(io/fs.FS).Open", "(*os.Root).Open", "os.DirFS", "(io/fs.ReadFileFS).ReadFile":
+			return true
+		}
+		return false
+	}
+	n := 0
+	for _, fn := range p.Funcs() {
+		if nil == fn.Pkg || !strings.HasSuffix(fn.Pkg.Pkg.Path(), sffPkg) {
+			continue
+		}
+		eachInstr(fn, func(i ssa.Instruction) {
+			call, ok := i.(*ssa.Call)
+			if !ok {
+				return
+			}
+			cc := call.Common()
+			if cc.IsInvoke() {
+				return
+			}
+			var idx int
+			var what string
+			if sc := cc.StaticCallee(); nil != sc {
+				if !inModule(sc) || nil == sc.Pkg || !strings.HasSuffix(sc.Pkg.Pkg.Path(), sffPkg) {
+					return
+				}
+				k, ok := isFilterSig(sc.Signature)
+				if !ok {
+					return
+				}
+				idx, what = k, fnName(sc)
+				if nil != sc.Signature.Recv() {
+					idx++
+				}
+			} else {
+				k, ok := isFilterSig(cc.Signature())
+				if !ok {
+					return
+				}
+				idx, what = k, "filter value"
+			}
+			n++
+			c := fmt.Sprintf("%s→%s:reader", fnName(fn), what)
+			bad := 0
+			for _, x := range valueRoots(cc.Args[idx], preserving) {
+				switch x.Kind {
+				case "param":
+				case "call":
+					if !sources(x.Callee) {
+						bad++
+						ru.Bad(c, posOf(call), "the bytes the filter reads pass through %s on their way from the file: the script which is converted is no longer the file's own text", x.Callee)
+					}
+				case "alloc":
+				default:
+					bad++
+					ru.Bad(c, posOf(call), "the filter's reader derives from %s", x)
+				}
+			}
+			if 0 == bad {
+				ru.OK(c, posOf(call), "the reader is the opened file / the file's bytes / the caller's reader")
+			}
+		})
+	}
+	if n < 3 {
+		ru.Unproven("filter-call-sites", token.NoPos, "%d calls handing a reader to a filter found; at least 3 expected (two fromReader callers and the filter call)", n)
+	}
+}
